@@ -172,13 +172,45 @@ def ctor_kwargs(names):
             kw[n] = True
         elif n in ("applications", "profiles"):
             kw[n] = []
+        elif n in ("existing_connection", "connection"):
+            # the pseudo connection Hijacker.available_actions() builds after a hijack
+            from whad.hub.events import ConnectionEvt
+            c = ConnectionEvt()
+            c.conn_handle = 0
+            c.initiator = b"\x00\x00\x00\x00\x00\x00"
+            c.init_addr_type = 0
+            c.advertiser = b"\x00\x00\x00\x00\x00\x00"
+            c.adv_addr_type = 0
+            c.access_address = 0
+            kw[n] = c
+        elif n == "from_json":
+            from whad.ble.profile import GenericProfile
+            kw[n] = GenericProfile().export_json()
+        elif n == "stack":
+            from whad.ble.stack import BleStack
+            kw[n] = BleStack
+        elif n == "gatt":
+            from whad.ble.stack.gatt import GattServer
+            kw[n] = GattServer
+        elif n == "client":
+            from whad.ble.stack.gatt import GattClient
+            kw[n] = GattClient
+        elif n == "pairing":
+            from whad.ble.stack.smp import Pairing
+            kw[n] = Pairing()
+        elif n == "configuration":
+            from whad.rf4ce.connector.sniffer import SnifferConfiguration
+            kw[n] = SnifferConfiguration()
+        elif n == "scapy_config":
+            kw[n] = "zigbee"
         else:
             unknown.append(n)
     return kw, unknown
 
 
 SUPPLYABLE = ["bd_address", "adv_data", "scan_data", "profile", "security_database", "public", "synchronous",
-              "applications", "profiles"]
+              "applications", "profiles", "existing_connection", "connection", "from_json", "stack", "gatt", "client",
+              "pairing", "configuration", "scapy_config"]
 
 
 def main():
